@@ -92,6 +92,30 @@ Theorem C20g_link_partial_cmp :
 Proof. exact link_partial_cmp. Qed.
 Print Assumptions C20g_link_partial_cmp.
 
+Theorem C20g_link_inter_cases :
+  forall s o : CharSet,
+       (exists q : CharSet,
+          M_CharSet_inter s o = Some (Some q) /\ cs_inter (conv s) (conv o) = Some (conv q)) \/
+       M_CharSet_inter s o = Some None /\ cs_inter (conv s) (conv o) = None.
+Proof. exact link_inter_cases. Qed.
+Print Assumptions C20g_link_inter_cases.
+
+Theorem C20g_link_inter_fold :
+  forall (l : list CharSet) (r : CharSet),
+       match CharSet_inter_list_loop1 l r with
+       | Some (LoopReturn x) => x = None /\ cs_inter_fold (conv r) (map conv l) = None
+       | Some (LoopDone q) => cs_inter_fold (conv r) (map conv l) = Some (conv q)
+       | None => False
+       end.
+Proof. exact link_inter_fold. Qed.
+Print Assumptions C20g_link_inter_fold.
+
+Theorem C20g_link_inter_list :
+  forall a : list CharSet,
+       option_map (option_map conv) (M_CharSet_inter_list a) = Some (cs_inter_list (map conv a)).
+Proof. exact link_inter_list. Qed.
+Print Assumptions C20g_link_inter_list.
+
 (* ---- the C20 statements on the translated code ---- *)
 
 Theorem C20g_contains :
@@ -224,3 +248,21 @@ Theorem C20g_example :
        M_CharSet_size {| CharSet_start := 0; CharSet_end := MAX_CHAR |} = Some 196608.
 Proof. exact g_example. Qed.
 Print Assumptions C20g_example.
+
+Theorem C20g_inter_list_total :
+  forall a : list CharSet, exists r : option CharSet, M_CharSet_inter_list a = Some r.
+Proof. exact g_inter_list_total. Qed.
+Print Assumptions C20g_inter_list_total.
+
+Theorem C20g_inter_list_some :
+  forall (a : list CharSet) (q : CharSet),
+       M_CharSet_inter_list a = Some (Some q) ->
+       forall x : N, x <= MAX_CHAR -> gmem x q <-> Forall (gmem x) a.
+Proof. exact g_inter_list_some. Qed.
+Print Assumptions C20g_inter_list_some.
+
+Theorem C20g_inter_list_none :
+  forall a : list CharSet,
+       M_CharSet_inter_list a = Some None -> forall x : N, ~ Forall (gmem x) a.
+Proof. exact g_inter_list_none. Qed.
+Print Assumptions C20g_inter_list_none.
